@@ -92,7 +92,14 @@ func VH_C08_handle_call() {
 	}
 	tgt, err := call.NewTarget()
 	vAssume(err == nil)
-	switch vConcI(int(vNondetU8()), 3) {
+	switch vConcI(int(vNondetU8()), 4) {
+	case 3:
+		// a target kind this implementation does not know (a newer peer): the union discriminant is
+		// neither importedCap nor promisedAnswer
+		tgt.SetImportedCap(vNondetU32())
+		w := vNondetU16()
+		vAssume(w >= 2)
+		tgt.Struct.SetUint16(4, w)
 	case 0:
 		tgt.SetImportedCap(vNondetU32())
 	case 1:
